@@ -154,3 +154,51 @@ func VH_C18_Groupings_sym() {
 	top = n.GetCategories(nil)
 	vAssert("only_cat_left", len(top) == 1 && top[0].Name == "cat" && len(top[0].Articles) == 2)
 }
+
+// c18Reloaded is what loading the saved document gives for one grouping, by the YAML library's contract on struct
+// tags: a key that was written sets its field, a key that was left out leaves the field at its zero value.
+func c18Reloaded(c hotline.NewsCategoryListData15) hotline.NewsCategoryListData15 {
+	doc := vTagMap(c)
+	var out hotline.NewsCategoryListData15
+	if v, ok := doc["Type"]; ok {
+		out.Type = v.([2]byte)
+	}
+	if v, ok := doc["Name"]; ok {
+		out.Name = v.(string)
+	}
+	if v, ok := doc["Articles"]; ok {
+		out.Articles = v.(map[uint32]*hotline.NewsArtData)
+	}
+	if v, ok := doc["SubCats"]; ok {
+		out.SubCats = v.(map[string]hotline.NewsCategoryListData15)
+	}
+	return out
+}
+
+// A grouping created through the protocol, saved and loaded again is the same tree: an empty category is still a
+// category one can post into, and an empty bundle one can create groupings in.
+func VH_C18_EmptyGroupingSurvivesReload_sym() {
+	vfsReset()
+	n := &ThreadedNewsYAML{filePath: "/cfg/ThreadedNews.yaml"}
+	n.ThreadedNews.Categories = map[string]hotline.NewsCategoryListData15{}
+	kind := hotline.NewsCategory
+	if vBool("bundle") {
+		kind = hotline.NewsBundle
+	}
+	vAssert("create_ok", n.CreateGrouping(nil, "fresh", kind) == nil)
+	before := n.ThreadedNews.Categories["fresh"]
+	after := c18Reloaded(before)
+	vAssert("reload_keeps_name_and_kind", after.Name == "fresh" && after.Type == kind)
+	vAssert("reload_keeps_article_table", (after.Articles == nil) == (before.Articles == nil) && len(after.Articles) == len(before.Articles))
+	vAssert("reload_keeps_subgroup_table", (after.SubCats == nil) == (before.SubCats == nil) && len(after.SubCats) == len(before.SubCats))
+	n.ThreadedNews.Categories["fresh"] = after
+	if kind == hotline.NewsCategory {
+		err := n.PostArticle([]string{"fresh"}, 0, hotline.NewsArtData{Title: "t", Poster: "p", Data: "d"})
+		vAssert("post_after_reload_ok", err == nil)
+		a := n.GetArticle([]string{"fresh"}, 1)
+		vAssert("posted_article_retrievable_after_reload", a != nil && a.Title == "t")
+	} else {
+		vAssert("subgroup_after_reload_ok", n.CreateGrouping([]string{"fresh"}, "sub", hotline.NewsCategory) == nil)
+		vAssert("subgroup_listed", len(n.GetCategories([]string{"fresh"})) == 1)
+	}
+}
